@@ -127,6 +127,7 @@ type Cluster struct {
 	down       map[int]bool // nodes taken down
 	arrivals   map[int]int  // command id -> how many times a node processed it (any outcome)
 	connOf     map[net.Conn]int
+	fault      string   // injected fault for the next plain data request: er | cb | ac
 	parkedConn net.Conn // the connection whose CLUSTER SLOTS request is parked (kept open when its node goes down)
 	closed     bool
 	conns      map[net.Conn]struct{}
@@ -274,6 +275,13 @@ func (d *Cluster) applyLocked(ev MigEv) bool {
 		}
 		d.owner[ev.Slot] = int16(ev.Dst)
 		d.trace = append(d.trace, fmt.Sprintf("v:%d:%d", ev.Slot, ev.Dst))
+	case "F": // fault injection: the next plain data request is answered -ERR without executing (er),
+		// its connection is closed before it is applied (cb), or after it was applied, without a reply (ac)
+		if ev.Key != "er" && ev.Key != "cb" && ev.Key != "ac" {
+			return false
+		}
+		d.fault = ev.Key
+		d.trace = append(d.trace, "F:"+ev.Key)
 	case "x": // node Dst goes down: listener and connections closed, slot table unchanged
 		if ev.Dst < 0 || ev.Dst >= d.n || d.down[ev.Dst] {
 			return false
@@ -410,6 +418,12 @@ func clusterKeysOf(args []string) ([]string, int) {
 		return []string{""}, id
 	}
 	switch strings.ToLower(args[0]) {
+	case "mset":
+		var ks []string
+		for i := 1; i < len(args); i += 2 {
+			ks = append(ks, args[i])
+		}
+		return ks, id
 	case "smove":
 		if len(args) < 3 {
 			return []string{args[1]}, id
@@ -505,6 +519,7 @@ func (d *Cluster) serve(node int, c net.Conn) {
 		}
 		reply := d.handle(node, st, args)
 		if reply == "" {
+			bw.Flush() // replies already produced on this connection are delivered
 			return
 		}
 		bw.WriteString(reply)
@@ -620,7 +635,20 @@ func (d *Cluster) handle(node int, st *clConnState, args []string) string {
 			sb.WriteString("+OK\r\n")
 		}
 		return sb.String()
-	case "set", "append", "lpush", "sadd", "hset", "smove":
+	case "command":
+		// COMMAND GETKEYS <cmd> <args…>: the two harness-only commands the static key
+		// table of the client does not know
+		if len(args) >= 4 && strings.ToLower(args[1]) == "getkeys" {
+			switch strings.ToLower(args[2]) {
+			case "vfgk":
+				return fmt.Sprintf("*1\r\n$%d\r\n%s\r\n", len(args[3]), args[3])
+			case "vffb":
+				return "*0\r\n"
+			}
+			return "-ERR The command has no key arguments\r\n"
+		}
+		return "-ERR unknown subcommand\r\n"
+	case "set", "append", "lpush", "sadd", "hset", "smove", "mset", "vfgk", "vffb":
 		keys, id := clusterKeysOf(args)
 		d.mu.Lock()
 		defer d.mu.Unlock()
@@ -645,6 +673,18 @@ func (d *Cluster) handle(node int, st *clConnState, args []string) string {
 		d.fireSchedLocked()
 		asking := st.asking
 		st.asking = false
+		flt := d.fault
+		d.fault = ""
+		if flt == "er" || flt == "cb" {
+			d.trace = append(d.trace, fmt.Sprintf("q:%d:%d:%d:e", node, id, clB2i(asking)))
+			d.nodeLog[node] = append(d.nodeLog[node], fmt.Sprintf("%d:e", id))
+			d.seen[id] = true
+			d.arrivals[id]++
+			if flt == "cb" {
+				return ""
+			}
+			return "-ERR injected fault\r\n"
+		}
 		out, errReply := d.decideLocked(node, keys, asking)
 		d.trace = append(d.trace, fmt.Sprintf("q:%d:%d:%d:%s", node, id, clB2i(asking), out))
 		d.nodeLog[node] = append(d.nodeLog[node], fmt.Sprintf("%d:%s", id, out))
@@ -652,6 +692,9 @@ func (d *Cluster) handle(node int, st *clConnState, args []string) string {
 		d.arrivals[id]++
 		if out == "x" {
 			d.recordExecLocked(node, id, keys, -1, asking)
+			if flt == "ac" {
+				return ""
+			}
 			return "+OK\r\n"
 		}
 		return errReply
@@ -818,4 +861,20 @@ func (d *Cluster) WaitProgress(ids []int, before map[int]int, timeout time.Durat
 		}
 		time.Sleep(50 * time.Microsecond)
 	}
+}
+
+// AllExecuted: has every id been executed at least once?
+func (d *Cluster) AllExecuted(ids []int) bool {
+	d.mu.Lock()
+	defer d.mu.Unlock()
+	done := map[int]bool{}
+	for _, e := range d.execs {
+		done[e.ID] = true
+	}
+	for _, id := range ids {
+		if !done[id] {
+			return false
+		}
+	}
+	return true
 }
